@@ -10,6 +10,8 @@ from sa.core import rule, AnalysisError
 from sa.pyindex import (get_module, dotted, src, kwarg, calls_in, try_fold,
                         walk_no_nested, all_py_files)
 from sa import flow
+from rules._pytd_schema import (reaching as _reaching, defs_at as _defs_at,
+                                stored_names)
 
 
 # ---------------------------------------------------------------------------
@@ -60,6 +62,7 @@ class _SetInference:
     self.mod = mod
     self._scope_cache = {}
     self._attr_cache = {}
+    self._rd_cache = {}
     self._active = set()
 
   # -- scopes -------------------------------------------------------------
@@ -225,14 +228,125 @@ class _SetInference:
         return True  # cycle (s = s | t): decided by the other bindings
       self._active.add(key)
       try:
-        return self._all_bindings_set(b, scope)
+        if self._all_bindings_set(b, scope):
+          return True
+        # flow-sensitive refinement (`xs = set(xs)`, `s = None .. s = set()`):
+        # every definition reaching the use is a set
+        flow_ok = isinstance(scope, _FUNC) and \
+            self.mod.enclosing_function(at) is scope and \
+            self._some_binding_set(b) and not self._shadowed(name, at)
       finally:
         self._active.discard(key)
+      if flow_ok:
+        return self._reaching_defs_set(name, at, scope)
+      return False
+    return False
+
+  def _some_binding_set(self, recs):
+    """Cheap pre-filter: at least one binding could make the name a set."""
+    for rec in recs:
+      if rec[0] == "param" and _ann_is_set(rec[1]):
+        return True
+      if rec[0] == "ann" and (_ann_is_set(rec[1]) or (
+          rec[2] is not None and self.is_set(rec[2], rec[2]))):
+        return True
+      if rec[0] == "value" and self.is_set(rec[1], rec[1]):
+        return True
+    return False
+
+  def _shadowed(self, name, at):
+    """`name` at `at` is bound by an enclosing comprehension."""
+    cur = at
+    while cur in self.mod.parent:
+      par = self.mod.parent[cur]
+      if isinstance(par, ast.stmt):
+        return False
+      if isinstance(par, (ast.ListComp, ast.SetComp, ast.DictComp,
+                          ast.GeneratorExp)):
+        for g in par.generators:
+          if any(isinstance(n, ast.Name) and n.id == name
+                 for n in ast.walk(g.target)):
+            return True
+      cur = par
+    return False
+
+  def _rd(self, fn):
+    if fn not in self._rd_cache:
+      a = fn.args
+      params = [p.arg for p in a.posonlyargs + a.args + a.kwonlyargs]
+      params += [p.arg for p in (a.vararg, a.kwarg) if p is not None]
+
+      def gen(unit):
+        return {(nm, unit) for nm in stored_names(unit)}
+
+      def kill(unit):
+        names = stored_names(unit)
+        if not names:
+          return None
+        return lambda fact: fact[0] in names
+      self._rd_cache[fn] = flow.flow(
+          fn, gen, kill, mode="may",
+          entry=frozenset((p, fn) for p in params))
+    return self._rd_cache[fn]
+
+  def _reaching_defs_set(self, name, at, fn):
+    stmt = self.mod.enclosing_stmt(at)
+    if stmt is None or stmt is fn:
+      return False
+    if isinstance(stmt, ast.While):
+      return False  # loop-carried definitions of a `while` test: not modelled
+    return self._defs_before_are_sets(name, stmt, fn)
+
+  def _defs_before_are_sets(self, name, stmt, fn):
+    rd = self._rd(fn)
+    state = rd.before.get(stmt)
+    if not state:
+      return False
+    defs = [d for (n, d) in state if n == name]
+    if not defs:
+      return False
+    for d in defs:
+      key = ("def", d, name)
+      if key in self._active:
+        continue
+      self._active.add(key)
+      try:
+        if not self._def_is_set(name, d, fn):
+          return False
+      finally:
+        self._active.discard(key)
+    return True
+
+  def _def_is_set(self, name, d, fn):
+    if d is fn:
+      a = fn.args
+      for p in a.posonlyargs + a.args + a.kwonlyargs:
+        if p.arg == name:
+          return _ann_is_set(p.annotation)
+      return False
+    if isinstance(d, ast.Assign):
+      val = None
+      for t in d.targets:
+        if isinstance(t, ast.Name) and t.id == name:
+          val = d.value
+        elif isinstance(t, (ast.Tuple, ast.List)) and isinstance(
+            d.value, (ast.Tuple, ast.List)) and len(t.elts) == len(
+                d.value.elts) and not any(
+                    isinstance(e, ast.Starred) for e in t.elts + d.value.elts):
+          for a_, b_ in zip(t.elts, d.value.elts):
+            if isinstance(a_, ast.Name) and a_.id == name:
+              val = b_
+      return val is not None and self.is_set(val, val)
+    if isinstance(d, ast.AnnAssign) and isinstance(d.target, ast.Name) \
+        and d.target.id == name:
+      return _ann_is_set(d.annotation) or (
+          d.value is not None and self.is_set(d.value, d.value))
+    if isinstance(d, ast.AugAssign) and isinstance(d.target, ast.Name) \
+        and d.target.id == name and isinstance(d.op, _SET_OPS):
+      return self._defs_before_are_sets(name, d, fn)
     return False
 
   def _all_bindings_set(self, recs, scope):
-    anchor = scope.body[0] if getattr(scope, "body", None) and isinstance(
-        scope.body, list) else scope
     definite = False
     for rec in recs:
       kind = rec[0]
@@ -256,7 +370,6 @@ class _SetInference:
           return False
       else:
         return False
-    del anchor
     return definite
 
   def _class_and_bases(self, cls):
@@ -622,6 +735,11 @@ _SAFE_OUTPUT_PATH = {
     ("pytype/pytd/optimize.py", "SimplifyUnionsWithSuperclasses.VisitUnionType",
      "set(union.type_list)"): (
          ("for",), "Counter addition is commutative; only counts are read"),
+    ("pytype/pytd/visitors.py", "VerifyContainers._TypeCompatibilityCheck",
+     "type_params"): (
+         ("listcomp",), "the list is sorted by len and only checked as a "
+         "superset chain; equal-length distinct sets fail in either order, so "
+         "the boolean result is order-free"),
     ("pytype/pytd/visitors.py", "VerifyVisitor.LeaveTypeDeclUnit",
      "self._all_templates"): (
          ("for",), "verification only: raises AssertionError on a broken AST "
@@ -705,6 +823,10 @@ _SAFE_WHOLE_PACKAGE = {
     ("pytype/pattern_matching.py", "BranchTracker.check_ending", "done"): (
         ("for",), "set of ints (line numbers): the order is a function of the "
         "values, and each result is reported at its own line"),
+    ("pytype/pretty_printer_base.py", "PrettyPrinterBase.join_printed_types",
+     "typs"): (
+         ("for",), "the collected strings are sorted before joining; the "
+         "other effects are a set update and a flag"),
     ("pytype/pyc/generate_opcode_diffs.py", "generate_diffs",
      "name_unchanged"): (
          ("for",), "developer script; writes a dict/set sorted before printing"),
@@ -795,44 +917,6 @@ ERRORS = "pytype/errors/errors.py"
 PRINTER = "pytype/pytd/printer.py"
 
 
-# -- small provenance helper (reaching definitions of local names) -------------
-
-def _stored_names(unit):
-  out = set()
-  todo = [unit]
-  while todo:
-    n = todo.pop()
-    if isinstance(n, _FUNC + (ast.ClassDef,)):
-      out.add(n.name)
-      continue
-    if isinstance(n, ast.Lambda):
-      continue
-    if isinstance(n, ast.Name) and isinstance(n.ctx, (ast.Store, ast.Del)):
-      out.add(n.id)
-    elif isinstance(n, ast.ExceptHandler) and n.name:
-      out.add(n.name)
-    todo.extend(ast.iter_child_nodes(n))
-  return out
-
-
-def _reaching(fn):
-  """May-flow of (name, defining unit) facts."""
-  def gen(unit):
-    return {(nm, unit) for nm in _stored_names(unit)}
-
-  def kill(unit):
-    names = _stored_names(unit)
-    if not names:
-      return None
-    return lambda fact: fact[0] in names
-  return flow.flow(fn, gen, kill, mode="may")
-
-
-def _defs_at(rd, stmt, name):
-  st = rd.before.get(stmt)
-  if st is None:
-    return []
-  return [d for (n, d) in st if n == name]
 
 
 def _callee(call):
@@ -866,7 +950,7 @@ def _resolve_call(expr, stmt, rd, want, depth=0):
   return None, f"`{src(expr)}` is not a call of {want}"
 
 
-@rule("R4.1", "C04", floor=4)
+@rule("R4.1", "C04", floor=5)
 def r4_1(ctx):
   """generate_pyi_ast stores CanonicalOrdering(Optimize(...)) in ret.ast."""
   mod = get_module(ctx, IO)
@@ -1050,7 +1134,7 @@ def _canonical_visit(ctx, cls, method, sch):
   return out
 
 
-@rule("R4.2", "C04", floor=17)
+@rule("R4.2", "C04", floor=18)
 def r4_2(ctx):
   """CanonicalOrderingVisitor sorts every tuple field (schema-driven)."""
   from rules._pytd_schema import get_schema
@@ -1123,13 +1207,35 @@ def r4_2(ctx):
             fn.lineno, f"UnionType.type_list is rebuilt as {src(v)}; union "
             "members come from binding order and must be sorted",
             {"value": src(v)})
-  # the helper guarding the constants exception looks at decorators / bases
+  # the helper guarding the constants exception must be a real test of the
+  # class: `return True` only under a condition on its decorators/bases
   pc = mod.func("CanonicalOrderingVisitor._PreserveConstantsOrdering")
-  txt = src(pc)
-  ok = "dataclasses.dataclass" in txt and "IsNamedTuple" in txt
-  ctx.check(ok, "_PreserveConstantsOrdering:scope", rel, pc.lineno,
-            "_PreserveConstantsOrdering must be limited to dataclass-like "
-            "decorators and namedtuples", {})
+  if len(pc.args.args) != 2:
+    raise AnalysisError("_PreserveConstantsOrdering: unexpected parameters")
+  p = pc.args.args[1].arg
+  verdict, seen = True, []
+  for r in [n for n in walk_no_nested(pc) if isinstance(n, ast.Return)]:
+    v = r.value
+    if isinstance(v, ast.Constant) and v.value is True:
+      g = flow.guards(mod.parent, r, stop=pc)
+      mentions = {a for t, pol in g if pol for a in flow.attrs_in(t)}
+      seen.append(("True", sorted(mentions)))
+      if not ({f"{p}.decorators", f"{p}.bases"} & mentions):
+        verdict = False
+    elif isinstance(v, ast.Constant) and v.value is False:
+      seen.append(("False", []))
+    elif isinstance(v, ast.Call) and dotted(v.func) == "IsNamedTuple" and \
+        [dotted(a) for a in v.args] == [p]:
+      seen.append(("IsNamedTuple", []))
+    else:
+      raise AnalysisError("_PreserveConstantsOrdering: return "
+                          f"`{src(v) if v is not None else None}` not understood")
+  if not seen:
+    raise AnalysisError("_PreserveConstantsOrdering: no return found")
+  ctx.check(verdict, "_PreserveConstantsOrdering:conditional", rel, pc.lineno,
+            "_PreserveConstantsOrdering returns True without testing the "
+            "class's decorators/bases: class constants would never be sorted",
+            {"returns": seen})
 
 
 # -- R4.3 ------------------------------------------------------------------------
@@ -1262,7 +1368,7 @@ def r4_3(ctx):
 
 # -- R4.4 ------------------------------------------------------------------------
 
-@rule("R4.4", "C04", floor=8)
+@rule("R4.4", "C04", floor=9)
 def r4_4(ctx):
   """Deterministic encoder, constant gzip header, sorted dependency lists."""
   from rules._pytd_schema import serialisation_instances
@@ -1347,13 +1453,13 @@ def r4_5(ctx):
 
 # -- R4.6 ------------------------------------------------------------------------
 
-@rule("R4.6", "C04", floor=16)
+@rule("R4.6", "C04", floor=18)
 def r4_6(ctx):
   """Set iteration feeding ordered data: output-path modules."""
   _run_set_rule(ctx, _scope_files(ctx, whole=False), _SAFE_OUTPUT_PATH)
 
 
-@rule("R4.6w", "C04", floor=41, tier="thorough")
+@rule("R4.6w", "C04", floor=43, tier="thorough")
 def r4_6_whole(ctx):
   """Set iteration feeding ordered data: the rest of the package."""
   quick = set(_scope_files(ctx, whole=False))
@@ -1412,6 +1518,14 @@ VARIANTS = [
      "expect": "fire",
      "old": "  slots: tuple[str, ...] | None\n",
      "new": "  slots: tuple[str, ...] | None\n  final_names: tuple[str, ...] = ()\n"},
+    {"name": "preserve-constants-always-true", "rule": "R4.2", "file": PYTD_VISITORS,
+     "expect": "fire",
+     "old": "    # The order of a namedtuple's fields should always be preserved.\n    return IsNamedTuple(node)",
+     "new": "    # The order of a namedtuple's fields should always be preserved.\n    return True"},
+    {"name": "twin-more-dataclass-like-decorators", "rule": "R4.2", "file": PYTD_VISITORS,
+     "expect": "silent",
+     "old": "x.name in (\"attr.s\", \"dataclasses.dataclass\") for x in node.decorators",
+     "new": "x.name in (\"attr.s\", \"attr.define\", \"dataclasses.dataclass\") for x in node.decorators"},
     {"name": "twin-sorted-tuple-in-branch", "rule": "R4.2", "file": PYTD_VISITORS, "expect": "silent",
      "old": "      constants = sorted(node.constants)",
      "new": "      constants = tuple(sorted(node.constants))"},
@@ -1504,6 +1618,10 @@ VARIANTS = [
      "file": "pytype/pytd/serialize_ast.py", "expect": "fire",
      "old": "      names = {ct.name for ct in self.class_type_nodes}\n",
      "new": "      names = {ct.name for ct in self.class_type_nodes}\n      self.metadata = [n for n in names]\n"},
+    {"name": "jointypes-dedups-through-a-set", "rule": "R4.6", "file": PYTD_UTILS,
+     "expect": "fire",
+     "old": "  queue = collections.deque(types)\n  seen = set()",
+     "new": "  types = set(types)\n  queue = collections.deque(types)\n  seen = set()"},
     {"name": "twin-set-listed-then-sorted", "rule": "R4.6", "file": PYTD_UTILS, "expect": "silent",
      "old": "      return pytd.Annotated(self.union, tuple(sorted(self.tags)))",
      "new": "      return pytd.Annotated(self.union, tuple(sorted(list(self.tags))))"},
